@@ -308,6 +308,30 @@ def run(ctx):
         else:
             ctx.check(t == "false" and not has_fact(g, True, "hasDescendantWithPrefixMatching("), "canRun:false-otherwise", "return_table",
                       can.loc(r), "false when no pattern matched", "returns %s" % t)
+    # the deadline is part of the action context saved at ASYNC_PAUSED: it must be the
+    # saved one that is in place when the waiting kill plugin is resumed (window counted
+    # from when the chain fired, not from the resume tick)
+    impl = ctx.fn1("Oomd::Engine::Ruleset::runOnceImpl")
+    rac = [i for i in impl.calls("Ruleset::run_action_chain") if "begin()" not in impl.text(impl.nodes[i]["args"][0])]
+    sac = impl.calls("OomdContext::setActionContext")
+    restore = [i for i in sac if "active_action_chain_state_" in impl.text(impl.nodes[i]["args"][0])]
+    ev = {}
+    for i in restore:
+        ev.setdefault(i, []).append(("set", "restored"))
+    for i in sac:
+        if i not in restore:
+            ev.setdefault(i, []).append(("clear", "restored"))
+    fdl = Flow(P, impl, events=ev, cg=ctx.cg)
+    ctx.counters["resume_sites"] = len(rac)
+    ctx.floor("resume_sites", 1, "resuming run_action_chain call")
+    for i in rac:
+        ctx.check(fdl.must(i, "restored"), "deadline-survives-async-pause", "order", impl.loc(i),
+                  "a resumed action runs with the context (and prekill deadline) saved when the chain fired",
+                  "a resumed action can run with a context built on the resume tick: the prekill_hook_timeout window "
+                  "slides forward while a detector keeps firing", witness_path(impl, fdl, i))
+    fires_ctx = [i for i in sac if "prekill_hook_timeout_" in impl.text(impl.nodes[i]["args"][0])]
+    ctx.check(len(fires_ctx) == 1, "deadline-fixed-once-at-firing", "value-shape", impl.loc(fires_ctx[0]) if fires_ctx else impl.loc(),
+              "the deadline is computed at exactly one place (chain firing)", "deadline computed at %d places" % len(fires_ctx))
     # pastPrekillHookTimeout uses the deadline fixed at chain fire and the steady clock
     ppt = ctx.fn1("Oomd::BaseKillPlugin::pastPrekillHookTimeout")
     X = Expander(P, ppt)
